@@ -197,7 +197,7 @@ def edge_vars(e):
     return frozenset([e.L, e.R]) | frozenset(e.D)
 
 
-def check_vine(trees, d, truncation, vine_type):
+def check_vine(trees, d, truncation, vine_type, by_content=False):
     """Independent check that ``trees`` (objects with .edges; edges with L, R, D, parents,
     name, theta) form a regular vine of the requested type on d variables.
     Returns a list of (clause, detail) problems; empty = valid."""
@@ -228,13 +228,20 @@ def check_vine(trees, d, truncation, vine_type):
                                      % (e.L, e.R)))
             node_pairs = [(e.L, e.R) for e in edges]
         else:
-            ids = {id(pe): i for i, pe in enumerate(prev_edges)}
+            if by_content:
+                # a vine read back from its export: the parents of an edge are copies of the
+                # edges of the tree above, recognised by (conditioned pair, conditioning set)
+                def ident(pe):
+                    return (frozenset([pe.L, pe.R]), frozenset(pe.D))
+            else:
+                ident = id
+            ids = {ident(pe): i for i, pe in enumerate(prev_edges)}
             uf = _UF(range(len(prev_edges)))
             node_pairs = []
             for e in edges:
                 ps = e.parents
-                if not ps or len(ps) != 2 or id(ps[0]) not in ids or id(ps[1]) not in ids \
-                        or ps[0] is ps[1]:
+                if not ps or len(ps) != 2 or ident(ps[0]) not in ids or ident(ps[1]) not in ids \
+                        or ident(ps[0]) == ident(ps[1]):
                     problems.append(('proximity', 'tree %d edge (%s,%s|%s): parents are not two '
                                      'distinct edges of tree %d'
                                      % (k, e.L, e.R, sorted(e.D), k - 1)))
@@ -254,7 +261,7 @@ def check_vine(trees, d, truncation, vine_type):
                 if e.L == e.R or frozenset([e.L, e.R]) != (A ^ B):
                     problems.append(('conditioned_pair', 'tree %d edge (%s,%s|%s): want pair %s'
                                      % (k, e.L, e.R, sorted(e.D), sorted(A ^ B))))
-                a, b = ids[id(ps[0])], ids[id(ps[1])]
+                a, b = ids[ident(ps[0])], ids[ident(ps[1])]
                 node_pairs.append((a, b))
                 if not uf.union(a, b):
                     problems.append(('spanning_tree', 'tree %d has a cycle' % k))
